@@ -305,6 +305,7 @@ def run(F, rep, tier):
             else:
                 rep.ok(r4, key, "matched (%s)" % par.get("k"))
     rep.floor(r4, "lock acquisitions in the server", nlocks, 7)
+    handler_panic_rule(F, rep)
     # R18.3 also outside the route handlers: error handlers, default services (any `.body(..)` of an HTTP response built in the server crate)
     handled = {hn for n in regs for hn in F.hir if hn.startswith(n + "::")}
     for n, h in sorted(F.hir.items()):
@@ -543,3 +544,31 @@ def tck_text_rule(F, rep):
                 else:
                     rep.violation(rid, key, "the xsd:string text is computed by %s instead of being the string payload as it is" % str(b)[:120], "%s:%s" % (h["file"], line))
     rep.floor(rid, "string conversions between DTO and Value", n, 3)
+
+
+def handler_panic_rule(F, rep):
+    """R18.8: request handlers hold the guard of the workspace lock while they work; a panic there poisons the lock and every later request fails. Every panic-capable
+    site (bounds / overflow asserts, calls of APIs documented to panic - including base64's *_slice functions) in the bodies of the server crate must be discharged by
+    the local proof rules of G1 (no audits here). The workspace operations themselves are C12's obligation."""
+    import g1_panic
+    rid = rep.rule("R18.8", "no undischarged panic-capable site in the request handlers of the server crate (a panic under the workspace guard poisons the lock)")
+    n = 0
+    for name, b in sorted(F.bodies.items()):
+        if not name.startswith("dmntk_server::") and not name.startswith("<dmntk_server::"):
+            continue
+        ss = g1_panic.collect_sites(F, name)
+        if not ss:
+            continue
+        A = g1_panic.Analyzer(F, name)
+        for s in ss:
+            n += 1
+            try:
+                d = g1_panic.discharge(F, A, s)
+            except Exception:
+                d = None
+            if d:
+                rep.ok(rid, s.key(), "%s: %s" % d)
+            else:
+                rep.violation(rid, s.key(), "%s %s in %s can panic while a request is being handled%s" % (s.kind, s.what, name, " (%s)" % g1_panic.panic_api(s.what) if s.kind == "call" and g1_panic.panic_api(s.what) else ""),
+                              "%s:%s" % (b["file"], s.line))
+    rep.floor(rid, "panic-capable sites in the server crate", n, 10)
